@@ -131,6 +131,9 @@ class Claims:
             except Exception as e:  # noqa: BLE001
                 reproduced, info = None, "replay crashed: %s" % traceback.format_exc(limit=3)
         if replay is not None and not reproduced:
+            if not hasattr(self.part, 'debug'):
+                self.part.debug = []
+            self.part.debug.append("%s inputs=%s pc=%s" % (label, json.dumps(jsonable(inp)), [str(f)[:160] for f in ctx.pc][-12:]))
             self.part.inconclusive.append("%s: solver model does not reproduce on the real code (%s)" % (label, str(info)[:300]))
             return False
         # which known class?
